@@ -18,6 +18,18 @@ def near_boundary(rng, L, extra=0):
     if c < 0.75: return 0
     return min(hi - 1, max(0, (rng.randrange(hi) // 8) * 8 + rng.randint(-1, 1)))
 
+def fill_plan(rng, L):
+    """[(index, count)]: grow several CONSECUTIVE 8-element chunks to 13..15 elements each (from the right to the left, so that the
+    positions of the chunks further left do not move), then overflow the chunk in front of them: the carry of the overflow has to
+    pass through all the over-full chunks (and accumulates their excess)."""
+    nch = L // 8
+    if nch < 3: return []
+    m = min(nch - 1, rng.choice([2, 3, 3, 4, 5]))
+    c0 = rng.randrange(0, nch - m)
+    plan = [(8 * (c0 + j) + rng.choice([0, 0, 3, 7]), rng.choice([5, 6, 7, 7])) for j in range(m, 0, -1)]
+    plan.append((8 * c0 + rng.choice([0, 2, 7]), rng.choice([8, 8, 9, 16])))
+    return plan
+
 def rope_history(rng, nops, nv, dist, maxinit=40, reads=True):
     def hit(k): dist[k] = dist.get(k, 0) + 1
     n0 = rng.choice([0, 0, 1, 5, 7, 8, 9, 15, 16, 17, 24, 30, maxinit]) if maxinit <= 40 else maxinit
@@ -32,6 +44,13 @@ def rope_history(rng, nops, nv, dist, maxinit=40, reads=True):
     th = {'grow': (0.6, 0.7, 0.8, 0.9), 'shrink': (0.25, 0.55, 0.8, 0.9), 'mix': (0.4, 0.6, 0.75, 0.9),
           'append': (0.8, 0.85, 0.9, 0.95), 'front': (0.7, 0.8, 0.9, 0.95)}[bias]
     for _ in range(nops):
+        if L >= 24 and rng.random() < 0.03:
+            for (i, cnt) in fill_plan(rng, L):
+                for _ in range(cnt):
+                    ops.append(f"ins {min(i, L)} {nv()}"); L += 1
+            hit('op_fill_consecutive_chunks')
+            if reads: ops.append("iter")
+            continue
         k = rng.random()
         if k < th[0] or L == 0:
             if bias == 'append': i = L
